@@ -1,3 +1,4 @@
+import XmppModel.Model.Header
 import XmppModel.Model.Stanza
 import XmppModel.Model.Encoder
 import XmppModel.Lemmas.Stanza
@@ -146,17 +147,17 @@ theorem C13_gen_iq_types : ∃ l, Generated.C13.iqTypes = some l ∧ sameSet l i
 /-- the struct definitions the model of the struct-tag path (`marshalAttrs`, `reflectNew`) is
 written for: field order, field types and `xml` tags of the three stanza types -/
 theorem C13_gen_struct_tags : Generated.C13.stanzaTags = some [
-    ("IQ", [("XMLName", "Name", "iq"), ("ID", "string", "id,attr"), ("To", "JID", "to,attr,omitempty"),
-      ("From", "JID", "from,attr,omitempty"),
-      ("Lang", "string", "http://www.w3.org/XML/1998/namespace lang,attr,omitempty"), ("Type", "IQType", "type,attr")]),
-    ("Message", [("XMLName", "Name", "message"), ("ID", "string", "id,attr,omitempty"),
-      ("To", "JID", "to,attr,omitempty"), ("From", "JID", "from,attr,omitempty"),
-      ("Lang", "string", "http://www.w3.org/XML/1998/namespace lang,attr,omitempty"),
-      ("Type", "MessageType", "type,attr,omitempty")]),
-    ("Presence", [("XMLName", "Name", "presence"), ("ID", "string", "id,attr"), ("To", "JID", "to,attr"),
-      ("From", "JID", "from,attr"),
-      ("Lang", "string", "http://www.w3.org/XML/1998/namespace lang,attr,omitempty"),
-      ("Type", "PresenceType", "type,attr,omitempty")])] := by decide
+    ("IQ", [("Name", "iq"), ("string", "id,attr"), ("JID", "to,attr,omitempty"),
+      ("JID", "from,attr,omitempty"),
+      ("string", "http://www.w3.org/XML/1998/namespace lang,attr,omitempty"), ("IQType", "type,attr")]),
+    ("Message", [("Name", "message"), ("string", "id,attr,omitempty"),
+      ("JID", "to,attr,omitempty"), ("JID", "from,attr,omitempty"),
+      ("string", "http://www.w3.org/XML/1998/namespace lang,attr,omitempty"),
+      ("MessageType", "type,attr,omitempty")]),
+    ("Presence", [("Name", "presence"), ("string", "id,attr"), ("JID", "to,attr"),
+      ("JID", "from,attr"),
+      ("string", "http://www.w3.org/XML/1998/namespace lang,attr,omitempty"),
+      ("PresenceType", "type,attr,omitempty")])] := by decide
 
 /-- decoding (by reflection) what the standard marshaller prints for a value gives the value
 back, in no namespace: for canonical addresses and a defined type -/
@@ -262,6 +263,53 @@ theorem C13_paths_agree_fails_empty_iq_type :
     by_cases h : t = "" <;>
       simp [reflectNew, reflectLoop, reflectStep, marshalAttrs, startAttrs, startName, marshalName, attr0, langAttr,
         nsXML, Kind.loc, h]
+
+/-! ### Texts with characters XML cannot carry (round F, review B C13-1c) -/
+
+/-- what the wire does to a text field (`xml.EscapeText` writes U+FFFD for a code point that is not
+an XML character; tied to the real encoder + decoder by the `fix` lines): the result consists of XML
+characters only, the substitution is idempotent — so a text that went through once round-trips
+exactly from then on — and it is the identity exactly on texts of XML characters, which is why the
+round-trip theorems (stated for all strings of the token model) describe the real codec under
+assumption[0] only. -/
+theorem C13_nonxml_substitution (t : List Char) :
+    (∀ c ∈ t.map Header.fixChar, Header.xmlChar c = true) ∧
+    (t.map Header.fixChar).map Header.fixChar = t.map Header.fixChar ∧
+    ((∀ c ∈ t, Header.xmlChar c = true) ↔ t.map Header.fixChar = t) := by
+  have hx : ∀ c, Header.xmlChar (Header.fixChar c) = true := by
+    intro c
+    unfold Header.fixChar
+    split
+    · assumption
+    · decide
+  have hid : ∀ c, Header.xmlChar c = true → Header.fixChar c = c := by
+    intro c h; simp [Header.fixChar, h]
+  refine ⟨?_, ?_, ?_, ?_⟩
+  · intro c hc
+    obtain ⟨d, _, rfl⟩ := List.mem_map.mp hc
+    exact hx d
+  · rw [List.map_map]
+    apply List.map_congr_left
+    intro c _
+    exact hid _ (hx c)
+  · intro h
+    induction t with
+    | nil => rfl
+    | cons a t ih =>
+      simp only [List.map_cons]
+      rw [hid a (h a (List.mem_cons_self ..)), ih (fun c hc => h c (List.mem_cons_of_mem _ hc))]
+  · intro h c hc
+    have : Header.fixChar c = c := by
+      induction t with
+      | nil => cases hc
+      | cons a t ih =>
+        simp only [List.map_cons, List.cons.injEq] at h
+        rcases List.mem_cons.mp hc with rfl | hc
+        · exact h.1
+        · exact ih h.2 hc
+    rw [← this]; exact hx c
+
+example : "a\x01b\uFFFE".toList.map Header.fixChar = "a\uFFFDb\uFFFD".toList := by decide
 
 /-! ### Wrapping helpers -/
 
